@@ -590,6 +590,41 @@ def check_last_wins(prog, rep):
     return n
 
 
+LEN_LIKE = re.compile(r'(\.ind_len$|\.rank$|\.block_number$|^len\(|\.shape\[|\.stored_blocks$)')
+
+
+def check_inclusive_bounds(prog, rep):
+    """index validity: `if idx > LENGTH: raise` accepts idx == LENGTH, one past the end (numpy
+    raises IndexError there). Against a length-like quantity the rejecting comparison is >=."""
+    n = 0
+    for rel in (NPC, 'tenpy/linalg/charges.py'):
+        m = prog.module(rel)
+        for q, f in m.functions.items():
+            for st in ast.walk(f):
+                if not (isinstance(st, ast.If) and any(isinstance(b, ast.Raise) for b in st.body)):
+                    continue
+                for c in ast.walk(st.test):
+                    if isinstance(c, ast.Compare) and len(c.ops) == 1 and isinstance(
+                            c.ops[0], (ast.Gt, ast.Lt, ast.GtE, ast.LtE)):
+                        gt = isinstance(c.ops[0], (ast.Gt, ast.GtE))
+                        big = c.comparators[0] if gt else c.left
+                        small = c.left if gt else c.comparators[0]
+                        if LEN_LIKE.search(unparse(big)) and isinstance(small, (ast.Name,
+                                                                              ast.Subscript)):
+                            n += 1
+                            strict = isinstance(c.ops[0], (ast.Gt, ast.Lt))
+                            rep.instance('BOUND-inclusive', {'function': q, 'test': unparse(c),
+                                                             'strict': strict})
+                            if strict:
+                                rep.violation('BOUND-inclusive', m, q, 'strict-bound:' + unparse(c),
+                                              '`%s` rejects only indices beyond `%s`; the index '
+                                              'equal to it is one past the end and is accepted '
+                                              '(numpy raises IndexError)' %
+                                              (unparse(c), unparse(big)), c.lineno)
+    if n < 2:
+        raise AnalysisError('BOUND-inclusive: bound checks of get_qindex / get_leg_index not found')
+
+
 def check_setitem_zero(prog, rep):
     """self[inds] = other: blocks of the addressed part that `other` does not store are zero in
     `other`, so the addressed part is zeroed unconditionally before the blocks of `other` are
@@ -634,6 +669,7 @@ def run(prog, rep, tier):
     if check_last_wins(prog, rep) < 100:
         raise AnalysisError('ACCUM-last-wins: loops of np_conserved.py not found')
     check_setitem_zero(prog, rep)
+    check_inclusive_bounds(prog, rep)
     # the two-pointer merge / inner product trust the cached claim "block indices are lexsorted":
     # its truthfulness is a necessary condition for the linear-combination clause (rules of C02)
     from .c02 import check_flag_q
